@@ -88,3 +88,36 @@ package utils
 //@   ensures client_gone_is_499: !implements(err, "net.Error") && !callres(Is, 0, 0) && callres(Is, 1, 0) ==> callarg(w.WriteHeader, 0, 0) == 499 && callarg(Is, 1, 1) == global("context.Canceled")
 //@   ensures anything_else_is_500: !implements(err, "net.Error") && !callres(Is, 0, 0) && !callres(Is, 1, 0) ==> callarg(w.WriteHeader, 0, 0) == 500
 //@   ensures same_error_examined: !implements(err, "net.Error") ==> callarg(Is, 0, 0) == err
+
+// ---- C19: source extractors (SMT strings) ------------------------------------------------------------
+// Address forms produced by net/http for RemoteAddr:  IPv4  h:p   and IPv6  [h]:p  (h may contain ':' and a %zone)
+
+//@ func extractClientIP
+//@   props C19
+//@   strings
+//@   requires req != nil
+//@   ensures one_unit: result2 == nil ==> result1 == 1
+//@   ensures ipv4: forall h string, p string :: req.RemoteAddr == concat(h, ":", p) && h != "" && !contains(h, ":") && !contains(h, "[") && !contains(h, "]") && isdigits(p) ==> result2 == nil && result0 == h
+//@   ensures ipv6: forall h string, p string :: req.RemoteAddr == concat("[", h, "]:", p) && h != "" && !contains(h, "[") && !contains(h, "]") && isdigits(p) ==> result2 == nil && result0 == h
+//@   ensures empty_address_refused: req.RemoteAddr == "" ==> result2 != nil
+
+//@ func extractHost
+//@   props C19
+//@   strings
+//@   requires req != nil
+//@   ensures host: result0 == req.Host && result1 == 1 && result2 == nil
+
+//@ func makeHeaderExtractor$1
+//@   props C19
+//@   strings
+//@   requires req != nil
+//@   ensures header_value: result0 == header(req.Header, header) && result1 == 1 && result2 == nil
+
+//@ func NewExtractor
+//@   props C19
+//@   strings
+//@   ensures client_ip: variable == "client.ip" ==> result1 == nil && result0 != nil
+//@   ensures request_host: variable == "request.host" ==> result1 == nil && result0 != nil
+//@   ensures header_form: prefixof("request.header.", variable) && strlen(variable) > 15 && variable != "client.ip" && variable != "request.host" ==> result1 == nil && result0 != nil && calls(makeHeaderExtractor) == 1 && callarg(makeHeaderExtractor, 0, 0) == substr(variable, 15, strlen(variable))
+//@   ensures empty_header_refused: variable == "request.header." ==> result1 != nil && result0 == nil
+//@   ensures unsupported_refused: variable != "client.ip" && variable != "request.host" && !prefixof("request.header.", variable) ==> result1 != nil && result0 == nil
